@@ -19,12 +19,16 @@ import decimal
 #
 # You should have received a copy of the GNU Lesser General Public License
 # along with this program.  If not, see <http://www.gnu.org/licenses/>.
+import re
 import token
 
 from cutplace import _compat, _tools, errors
 
 #: '...' as single character.
 ELLIPSIS = "\u2026"
+
+#: Regular expression to find quoted strings and ellipsis outside of them.
+_QUOTED_OR_ELLIPSIS_REGEX = re.compile(r"""("(?:\\.|[^"\\])*"|'(?:\\.|[^'\\])*')|""" + ELLIPSIS)
 
 MAX_INTEGER = 2**31 - 1
 MIN_INTEGER = -(2**31)
@@ -120,6 +124,17 @@ def code_for_string_token(name, value, location):
     return ord(value_without_quotes)
 
 
+def _tokenizable_description(description):
+    """
+    Same as ``description`` but with any :py:const:`ELLIPSIS` outside of
+    quoted text replaced by a colon (:), which has the same meaning. Starting
+    with Python 3.12 the tokenizer treats the ellipsis character as part of
+    a name, for example ``1\u20265`` yields the number ``1`` and the name
+    ``\u20265``.
+    """
+    return _QUOTED_OR_ELLIPSIS_REGEX.sub(lambda match: match.group(1) or " : ", description)
+
+
 def create_range_from_length(length_range):
     """
     Create a range from length.
@@ -211,7 +226,7 @@ class Range(object):
 
             name_for_code = "range"
             location = None  # TODO: Add location where range is declared.
-            tokens = _tools.tokenize_without_space(self._description)
+            tokens = _tools.tokenize_without_space(_tokenizable_description(self._description))
             end_reached = False
             while not end_reached:
                 lower = None
@@ -545,7 +560,7 @@ class DecimalRange(Range):
         else:
             self._description = description.replace("...", ELLIPSIS)
             self._items = []
-            tokens = _tools.tokenize_without_space(self._description)
+            tokens = _tools.tokenize_without_space(_tokenizable_description(self._description))
             end_reached = False
             max_digits_after_dot = 0
             max_digits_before_dot = 0
